@@ -119,7 +119,10 @@ impl PM1Base {
         // 2R mod N,
         let one_r = ((1u128 << 64) % (n as u128)) as u64;
         let minus_one_r = n - one_r;
-        let mut xr = (2 * one_r) % n;
+        // (x - 1) in Montgomery form for x < n, reduced modulo n:
+        // x + minus_one_r does not fit in 64 bits when n >= 2^63.
+        let sub_one = |x: u64| if x >= one_r { x - one_r } else { x + minus_one_r };
+        let mut xr = ((2 * one_r as u128) % (n as u128)) as u64;
         debug_assert!(mg_redc(n, ninv, xr as u128) == 2);
         // Small primes is assumed to have a cost of 1024 (95 primes).
         let fmax = std::cmp::min(self.factors.len(), budget * self.factors.len() / 1024);
@@ -141,12 +144,12 @@ impl PM1Base {
             // Maybe we have finished?
             // No need to reduce out of Montgomery form, subtract R
             // to get 2^K R - R = (2^K-1)R
-            let d = Integer::gcd(&n, &(xr + minus_one_r));
+            let d = Integer::gcd(&n, &sub_one(xr));
             if d > 1 && d < n {
                 return Some((d, n / d));
             }
         }
-        let d = Integer::gcd(&n, &(xr + minus_one_r));
+        let d = Integer::gcd(&n, &sub_one(xr));
         if d > 1 && d < n {
             return Some((d, n / d));
         }
@@ -171,7 +174,7 @@ impl PM1Base {
         let xr480 = mg_mul(n, ninv, xr240, xr240);
         let xr502 = mg_mul(n, ninv, xr480, jumps[22 / 2 - 1]);
         let mut h = mg_mul(n, ninv, xr502, xr);
-        let mut product = h + minus_one_r;
+        let mut product = sub_one(h);
         let mut exp = 503;
         debug_assert!(self.larges[0] == 503);
         for (idx, &p) in self.larges[1..pmax].iter().enumerate() {
@@ -186,7 +189,7 @@ impl PM1Base {
             // Accumulate the product of (h^p - 1) for primes p
             let gap = (p - exp) as usize;
             h = mg_mul(n, ninv, h, jumps[gap / 2 - 1]);
-            product = mg_mul(n, ninv, product, h + minus_one_r);
+            product = mg_mul(n, ninv, product, sub_one(h));
             exp = p;
         }
         let d = Integer::gcd(&n, &product);
